@@ -3,3 +3,5 @@ import Rp2.Props.C13
 #print axioms Rp2.C13.fractions_count
 #print axioms Rp2.C13.event_labels
 #print axioms Rp2.C13.rows_once
+#print axioms Rp2.C13.model_transactions_once
+#print axioms Rp2.C13.model_report_always_generated
